@@ -35,6 +35,7 @@ Fixpoint reach (fuel : nat) (mixins : list (list stmt)) (cenv : list (option (li
     | SError m => [LError m]
     | SIf c t e => body cenv pre (if c then t else e)
     | SLoop k b => repeat_app k (body cenv pre b)
+    | SEach _ bodies => flat_map (body cenv pre) bodies
     | SInclude m content =>
         match nth_error mixins m with Some mb => body (content :: cenv) pre mb | None => [] end
     | SContent => match cenv with Some c :: outer => body outer pre c | _ => [] end
@@ -117,6 +118,7 @@ Fixpoint blocky (s : stmt) : bool :=
   match s with
   | SMedia _ _ | SAtR _ _ (Some _) | SInclude _ _ | SContent => true
   | SNs _ _ b | SRule _ b | SAtRoot _ b | SLoop _ b => any b
+  | SEach p bs => any p || (fix anyl (l : list (list stmt)) : bool := match l with [] => false | x :: r => any x || anyl r end) bs
   | SIf _ t e => any t || any e
   | _ => false
   end.
@@ -125,6 +127,7 @@ Fixpoint ns_block (s : stmt) : bool :=
   match s with
   | SNs _ _ b => existsb blocky b || any b
   | SRule _ b | SMedia _ b | SAtR _ _ (Some b) | SAtRoot _ b | SLoop _ b => any b
+  | SEach p bs => any p || (fix anyl (l : list (list stmt)) : bool := match l with [] => false | x :: r => any x || anyl r end) bs
   | SIf _ t e => any t || any e
   | SInclude _ (Some c) => any c
   | _ => false
@@ -137,9 +140,9 @@ Definition known_ns_block (p : program) : bool :=
 (* a @media / at-rule body that has a direct declaration or comment AFTER a nested
    block: the direct items are collected in a rule that is emitted first (F33) *)
 Definition is_direct (s : stmt) : bool :=
-  match s with SDecl _ _ | SComment _ | SNs _ _ _ | SIf _ _ _ | SLoop _ _ | SInclude _ _ | SContent | SAtRoot None _ => true | _ => false end.
+  match s with SDecl _ _ | SComment _ | SNs _ _ _ | SIf _ _ _ | SLoop _ _ | SEach _ _ | SInclude _ _ | SContent | SAtRoot None _ => true | _ => false end.
 Definition is_block (s : stmt) : bool :=
-  match s with SRule _ _ | SMedia _ _ | SAtR _ _ _ | SAtRoot _ _ | SIf _ _ _ | SLoop _ _ | SInclude _ _ | SContent => true | _ => false end.
+  match s with SRule _ _ | SMedia _ _ | SAtR _ _ _ | SAtRoot _ _ | SIf _ _ _ | SLoop _ _ | SEach _ _ | SInclude _ _ | SContent => true | _ => false end.
 Fixpoint block_then_direct (seen_block : bool) (l : list stmt) : bool :=
   match l with
   | [] => false
@@ -152,6 +155,7 @@ Fixpoint reorder (s : stmt) : bool :=
   | SMedia _ b | SAtR _ _ (Some b) => block_then_direct false b || any b
   | SNs _ _ b | SRule _ b | SAtRoot _ b => any b
   | SLoop _ b => mixed b || any b
+  | SEach p bs => mixed p || any p || (fix anyl (l : list (list stmt)) : bool := match l with [] => false | x :: r => mixed x || any x || anyl r end) bs
   | SIf _ t e => block_then_direct false t || block_then_direct false e || any t || any e
   | SInclude _ (Some c) => block_then_direct false c || any c
   | _ => false
